@@ -5,4 +5,7 @@ UNITS = [
     ("contracts.task_machine", "ProcessActionEvent"),
     ("contracts.task_machine", "ProcessTaskItemEvent"),
     ("contracts.task_machine", "TaskProcessWorkflowEvent"),
+    ("contracts.conductor_gnt", "GetNextTasks"),
+    ("contracts.conductor_eta", "EvaluateTaskActions"),
+    ("contracts.conductor_eta", "EvaluateTaskRetry"),
 ]
